@@ -174,4 +174,33 @@ example : IsRoute exNet (exPkt 2) [[1], [2], [3]] := by decide
 example : (route exNet [1] (exPkt 2)).2 = ([3], .delivered) := by decide
 example : (route exNet [1] (exPkt 1)).2.1 = [2] := by decide
 
+
+/-- **zero_budget_reported_at_origin.** A datagram sent with budget 0 to another node runs out at the node that
+sends it: that node originates the "message expired" notice, addressed to itself, and publishes it to its own
+sockets within the same call — which is why a ping has to listen for notices before it sends. -/
+theorem zero_budget_reported_at_origin (me : Node) (cfg : NodeCfg) (p : Packet)
+    (hfrom : p.fromNode = me) (hto : p.toNode ≠ me) (httl : p.ttl = 0) (hsvc : p.fromSvc ≠ unreachSvc)
+    (hfw : cfg.fw p.fromNode p.fromSvc p.toNode p.toSvc = .accept)
+    (hfwn : cfg.fw me unreachSvc me unreachSvc = .accept) :
+    observe stdHops me cfg 2 p =
+      [(p, .spawn (mkNotice me cfg p .expired)),
+       (mkNotice me cfg p .expired,
+        .published { fromNode := me, toNode := p.toNode, fromSvc := p.fromSvc, toSvc := p.toSvc, problem := .expired })] := by
+  have hne : ¬ (p.toNode = me) := hto
+  have hnotice : isNotice stdHops p = false := by
+    simp [isNotice, stdHops, hsvc]
+  have h1 : handle stdHops me cfg p = .spawn (mkNotice me cfg p .expired) := by
+    unfold handle
+    simp only [hfw, hne, if_false, httl, stdHops, Nat.le_refl, if_true]
+    have : isNotice { expireAt := 0, decrement := 1, noticeGuard := true, pingGuard := true } p = false := hnotice
+    simp [this]
+  have h2 : handle stdHops me cfg (mkNotice me cfg p .expired) =
+      .published { fromNode := me, toNode := p.toNode, fromSvc := p.fromSvc, toSvc := p.toSvc, problem := .expired } := by
+    unfold handle mkNotice
+    simp only [hfrom, hfwn, if_true]
+    have hup : ¬ (unreachSvc = pingSvc) := by decide
+    simp [hup]
+  simp only [observe, h1, h2]
+
+
 end Receptor.Forward
